@@ -321,12 +321,17 @@ MatchWith(fe, perm, co) ==
       \* the nodes of a fragment in residue-id order (F15, repaired: in set-iteration order = perm) cut into copies
       seqOf(i) == IF Dev.sliceAny THEN perm[comp(i)] ELSE Sorted(comp(i))
       sl(i) == LET s == seqOf(i)  p == IdxOf(s, i)  L == NRes(Blk(I, i))  f == ((p - 1) \div L) * L IN SubSeq(s, f + 1, f + L)
-  IN IF bad THEN /\ err' = "mismatch" /\ pc' = "done"
-                 /\ UNCHANGED <<n2b, slice, fid>>
-     ELSE /\ n2b' = [i \in Pos(I) |-> BlkName(I, i)]
-          /\ slice' = [i \in Pos(I) |-> IF i \in fr THEN sl(i) ELSE <<i>>]
-          /\ fid' = [i \in Pos(I) |-> IF i \in fr THEN before(i) + ((IdxOf(seqOf(i), i) - 1) \div NRes(Blk(I, i))) + 1 ELSE 0]
-          /\ err' = "" /\ pc' = "tag"
+      \* the copies the residues belong to when the fragments are taken from all residue-graph edges
+      sl0(i) == LET s == Sorted(Comp(I, i))  p == IdxOf(s, i)  L == NRes(Blk(I, i))  f == ((p - 1) \div L) * L IN SubSeq(s, f + 1, f + L)
+      treeMatters == Dev.treeEdges /\ (bad \/ \E i \in fr : sl(i) # sl0(i))
+  IN /\ fired' = IF treeMatters THEN fired \cup {"F31"} ELSE fired
+     /\ IF bad
+        THEN /\ err' = "mismatch" /\ pc' = "done"
+             /\ UNCHANGED <<n2b, slice, fid>>
+        ELSE /\ n2b' = [i \in Pos(I) |-> BlkName(I, i)]
+             /\ slice' = [i \in Pos(I) |-> IF i \in fr THEN sl(i) ELSE <<i>>]
+             /\ fid' = [i \in Pos(I) |-> IF i \in fr THEN before(i) + ((IdxOf(seqOf(i), i) - 1) \div NRes(Blk(I, i))) + 1 ELSE 0]
+             /\ err' = "" /\ pc' = "tag"
 \* iteration orders of the fragment components: residue-id order of their first residue, or (finding F32) any order -
 \* nx.connected_components follows the insertion order of the nodes
 CompOrders(fe) ==
@@ -336,14 +341,12 @@ MatchNodes ==
   /\ pc = "match"
   /\ IF Dev.treeEdges
      THEN \E T \in DfsTrees(inp) : \E co \in CompOrders(FragEdges(inp) \cap T) :
-            /\ MatchWith(FragEdges(inp) \cap T, <<>>, co)
-            /\ fired' = IF \E i \in Pos(inp) : IsFrag(inp, i) /\ Reach(FragEdges(inp) \cap T, {i}) # Comp(inp, i) THEN fired \cup {"F31"} ELSE fired
+            MatchWith(FragEdges(inp) \cap T, <<>>, co)
      ELSE IF Dev.sliceAny
      THEN \E perm \in [{Comp(inp, i) : i \in Pos(inp)} -> UNION {Perms(Comp(inp, i)) : i \in Pos(inp)}] :
             /\ \A c \in DOMAIN perm : ToSet(perm[c]) = c /\ Len(perm[c]) = Cardinality(c)
             /\ \E co \in CompOrders(FragEdges(inp)) : MatchWith(FragEdges(inp), perm, co)
-            /\ fired' = fired
-     ELSE \E co \in CompOrders(FragEdges(inp)) : MatchWith(FragEdges(inp), <<>>, co) /\ fired' = fired
+     ELSE \E co \in CompOrders(FragEdges(inp)) : MatchWith(FragEdges(inp), <<>>, co)
   /\ UNCHANGED <<inp, bx, order, k, atoms, inters, medges, gattr, added, cbase, clist, removed, molN>>
 
 (* ---- tag_exclusions ---- *)
